@@ -15,7 +15,8 @@ executor that holds the registration takes it out of its map and calls `cabi_wak
 by legal labels; for the v1 ABI (tasks cannot be cloned) legality keeps the operation in task `t0`,
 for v2 the task may change at every poll/drop.  All theorems: every label sequence, no depth bound.
 
-Scope notes.  The real executor's side of the registration (`SharedTaskState::waitable_register/
+Scope notes.  `delivered_once` is an invariant of the registration bookkeeping under the label
+structure (see its docstring), not a statement about the host's event queue.  The real executor's side of the registration (`SharedTaskState::waitable_register/
 unregister`, `deliver_waitable_event`: map + `waitable.join`) is not modelled here (C22's
 `Async/Task.lean`); the check evaluates the specification monitor `WaitableSpec` on real traces of the
 real executor as well.  Stream/future operation kinds are covered by the theorems (generic `ops`) but
@@ -74,10 +75,18 @@ theorem removed_before_cancel_or_drop (hS : ops.Stable) (hv : v = 1 ∨ v = 2) {
   exact ⟨fun p d w1 e1 evs hst hc => cancelPrepare_unregisters ops v t0 hv w regs p hst hI t ht d w1 e1 evs hc,
          fun ans e' evs hd => dropOp_regs_empty ops dropC v t0 hv w regs hI t ans ht e' evs hd⟩
 
-/-- **Inv3 (delivered once).**  A delivery is possible only while the operation is registered (hence
-no completion code is pending: nothing is overwritten or delivered twice); it stores the code and
-removes the registration, so a second delivery is not enabled; and the next poll hands the code to
-`in_progress_update` and leaves no code behind (the operation is then registered again, or done). -/
+/-- **Inv3 (delivered once) — the part that is an invariant of the registration bookkeeping.**
+What is PROVED: in every reachable state a registration exists exactly when no completion code is
+stored (Inv1), so the executor finds an entry to deliver through only while nothing is pending;
+a delivery stores the code and removes the entry; and the next poll hands that code to
+`in_progress_update` and leaves none behind (registered again, or done).
+What is ASSUMED by the shape of the `deliver` label (not proved about a host): the executor delivers
+only through an entry of its map and removes it when it does (that is what `deliver_waitable_event`
+and the harness executor do); a second delivery without a registration is simply *not enabled*
+in this system — `GSys.step` answers it with `panic "delivery without a registration"` — so
+"never delivered twice" holds by construction of the label, and events the host queues or loses
+before they reach an executor cannot be expressed here at all (they are the subject of the host
+rules `Host.Sub.takeEvent` / `Host.follow`, checked on real traces, and of C22's executor model). -/
 theorem delivered_once (hS : ops.Stable) (hv : v = 1 ∨ v = 2) {g g' : GSys S P} (h : GReach ops dropC v t0 s0 g) (hg : g.gone = false) (code : Nat)
     {evs : List Ev} (hs : g.step ops dropC v (.deliver code) = .ok g' evs) :
     g.w.code = none ∧ g'.w.code = some code ∧ g'.regs = [] ∧
